@@ -159,6 +159,12 @@ def check_report(path, text, result, csv_text, rec, case, labels):
             if vu is None:
                 if own:
                     bad('field_dropped', {'category': category, 'field': field, 'line': own[0]['raw'].strip()}, category=category, field=field)
+                elif cands and all(to_float(e['tok']) is not None and to_float(e['tok']) == to_float(e['tok'])
+                                   and abs(to_float(e['tok'])) != float('inf') for _, e in cands):
+                    # the label is printed with a number, only under another banner (e.g. closed-loop style reports print the
+                    # engineering / cost lines under one 'AGS/CLGS STYLE OUTPUT' banner): the client exposes such lines too
+                    bad('field_dropped', {'category': category, 'field': field, 'line': cands[0][1]['raw'].strip(), 'printed_under': cands[0][0]},
+                        category=category, field=field)
                 continue
             if not isinstance(vu, dict) or isinstance(vu.get('value'), str):
                 continue
